@@ -52,11 +52,12 @@ def run(ctx, cfg, fnpath, uninterpreted=None, inline=(), **kw):
     ctx.absorb(ip, fnpath)
     its = []
     for (p, head, bst, bmap, valid, cur) in ip.back_states:
-        if p != fnpath and (p.startswith('#') or p.split('::{closure')[0] in X.KNOWN_FNS) and not any(p.endswith(k) for k in inline):
+        model = p.startswith('#iter_next<')     # the search loop of a filtering adaptor: its ways round are elements this function's loop skips
+        if p != fnpath and not model and (p.startswith('#') or p.split('::{closure')[0] in X.KNOWN_FNS) and not any(p.endswith(k) for k in inline):
             continue      # loops of callees of the reference tree are theirs; a helper extracted later is part of this function
         start = bst.ghost.get(('iter-start', len(bst.frames), head), 0)
         # loops of an inlined helper are told apart from the function's own by their owner (block numbers may coincide)
-        hid = head if p == fnpath else '%s#bb%d' % (p.rsplit('::', 1)[-1], head)
+        hid = head if p == fnpath else '%s#bb%d' % ('#next' if model else p.rsplit('::', 1)[-1], head)
         its.append(Iteration(hid, bst, bst.calls[start:], cur, bmap, valid))
     log = Log(ip, fn, outs, its)
     log.entries = [(h[1], h[5]) for h in ip.head_states if h[0] == fnpath or not (h[0].startswith('#') or h[0].split('::{closure')[0] in X.KNOWN_FNS)]
